@@ -1,0 +1,90 @@
+//go:build verif
+
+package selector
+
+// Read-only accessors used by the verification harness (property C05):
+// a neutral dump of the unexported selector AST.
+
+// VerifC05AST is one node of the selector AST.
+//
+//	Kind: "tag" (Name) | "class" (Name) | "id" (Name) | "attr" (Key, Val, Op, IC) |
+//	      "nth" (A, B, Last, OfType) | "only" (OfType) | "empty" | "root" | "never" (Name) |
+//	      "rel" (Name = is|not|has|haschild, Args) | "compound" (PE, Args) |
+//	      "combined" (Comb, Args = [first, second]) |
+//	      "unsupported" (Name = Go type; selectors outside the modelled grammar)
+type VerifC05AST struct {
+	Kind         string
+	Name         string
+	Key, Val, Op string
+	IC           bool
+	A, B         int
+	Last, OfType bool
+	Comb         string
+	PE           string
+	Args         []VerifC05AST
+}
+
+// VerifC05Dump returns the AST of a parsed selector.
+func VerifC05Dump(s Sel) VerifC05AST {
+	switch s := s.(type) {
+	case tagSelector:
+		if s.tag != 0 {
+			return VerifC05AST{Kind: "tag", Name: s.tag.String()}
+		}
+		return VerifC05AST{Kind: "tag", Name: s.tagS}
+	case classSelector:
+		return VerifC05AST{Kind: "class", Name: s.class}
+	case idSelector:
+		return VerifC05AST{Kind: "id", Name: s.id}
+	case attrSelector:
+		if s.operation == "#=" {
+			return VerifC05AST{Kind: "unsupported", Name: "attrSelector#="}
+		}
+		return VerifC05AST{Kind: "attr", Key: s.key, Val: s.val, Op: s.operation, IC: s.ignoreCase}
+	case nthPseudoClassSelector:
+		return VerifC05AST{Kind: "nth", A: s.a, B: s.b, Last: s.last, OfType: s.ofType}
+	case onlyChildPseudoClassSelector:
+		return VerifC05AST{Kind: "only", OfType: s.ofType}
+	case emptyElementPseudoClassSelector:
+		return VerifC05AST{Kind: "empty"}
+	case rootPseudoClassSelector:
+		return VerifC05AST{Kind: "root"}
+	case neverMatchSelector:
+		return VerifC05AST{Kind: "never", Name: s.value}
+	case relativePseudoClassSelector:
+		return VerifC05AST{Kind: "rel", Name: s.name, Args: VerifC05DumpGroup(s.match)}
+	case compoundSelector:
+		return VerifC05AST{Kind: "compound", PE: s.pseudoElement, Args: VerifC05DumpGroup(s.selectors)}
+	case combinedSelector:
+		if s.first == nil || s.second == nil || s.combinator == 0 {
+			return VerifC05AST{Kind: "unsupported", Name: "combinedSelector(nil)"}
+		}
+		return VerifC05AST{Kind: "combined", Comb: string(s.combinator), Args: []VerifC05AST{VerifC05Dump(s.first), VerifC05Dump(s.second)}}
+	case containsPseudoClassSelector:
+		return VerifC05AST{Kind: "unsupported", Name: "contains"}
+	case regexpPseudoClassSelector:
+		return VerifC05AST{Kind: "unsupported", Name: "matches"}
+	case inputPseudoClassSelector:
+		return VerifC05AST{Kind: "unsupported", Name: "input"}
+	case linkPseudoClassSelector:
+		return VerifC05AST{Kind: "unsupported", Name: "link"}
+	case langPseudoClassSelector:
+		return VerifC05AST{Kind: "unsupported", Name: "lang"}
+	case enabledPseudoClassSelector:
+		return VerifC05AST{Kind: "unsupported", Name: "enabled"}
+	case disabledPseudoClassSelector:
+		return VerifC05AST{Kind: "unsupported", Name: "disabled"}
+	case checkedPseudoClassSelector:
+		return VerifC05AST{Kind: "unsupported", Name: "checked"}
+	}
+	return VerifC05AST{Kind: "unsupported", Name: "unknown"}
+}
+
+// VerifC05DumpGroup dumps every selector of a list.
+func VerifC05DumpGroup(g []Sel) []VerifC05AST {
+	out := make([]VerifC05AST, len(g))
+	for i, s := range g {
+		out[i] = VerifC05Dump(s)
+	}
+	return out
+}
